@@ -10,7 +10,7 @@ for pair in "$@"; do
   seed=${pair%%:*}; id=${pair##*:}
   if ! git -C /repo diff --quiet; then echo "/repo dirty"; exit 2; fi
   rm -f replays/$id-*.json
-  git -C /repo apply "seeded/$seed/patch.diff" || { echo "$pair: patch does not apply"; fail=1; continue; }
+  git -C /repo apply "$PWD/seeded/$seed/patch.diff" || { echo "$pair: patch does not apply"; fail=1; continue; }
   ./check "$id" quick > .build/tmp/rst-$id.log 2>&1; rc1=$?
   f=$(ls replays/$id-*.json 2>/dev/null | head -1)
   if [ -z "$f" ]; then echo "$pair: no replay file (check rc=$rc1)"; git -C /repo checkout -- .; fail=1; continue; fi
